@@ -5,6 +5,7 @@
 import RV.Facts.Generated
 import RV.Model.Wire
 import RV.Facts.Expected
+import RV.Facts.ExpectedC16
 open RV RV.Facts
 
 def natFacts : List (String × Nat × Nat) := [
@@ -20,7 +21,18 @@ def natFacts : List (String × Nat × Nat) := [
 def listFacts : List (String × List Nat × List Nat) := [
   ("encodeClass", Generated.encodeClass, Expected.encodeClass),
   ("requestClass", Generated.requestClass, Expected.requestClass),
-  ("encodeClassOutOfRange", Generated.encodeClassOutOfRange, Expected.encodeClassOutOfRange)]
+  ("encodeClassOutOfRange", Generated.encodeClassOutOfRange, Expected.encodeClassOutOfRange),
+  ("c16TypeCode", Generated.c16TypeCode, ExpectedC16.c16TypeCode),
+  ("c16TypeSize", Generated.c16TypeSize, ExpectedC16.c16TypeSize),
+  ("c16Flags", Generated.c16Flags, ExpectedC16.c16Flags),
+  ("c16Format", Generated.c16Format, ExpectedC16.c16Format),
+  ("c16ValueNumber", Generated.c16ValueNumber, ExpectedC16.c16ValueNumber)]
+
+def coverFacts : List (String × Bool) := [
+  ("c16TypeTokens", ExpectedC16.covers Generated.c16TypeTokens ExpectedC16.mustTypeTokens),
+  ("c16FlagTokens", ExpectedC16.covers Generated.c16FlagTokens ExpectedC16.mustFlagTokens),
+  ("c16FormatTokens", ExpectedC16.covers Generated.c16FormatTokens ExpectedC16.mustFormatTokens),
+  ("c16ValueTokens", ExpectedC16.covers Generated.c16ValueTokens ExpectedC16.mustValueTokens)]
 
 /-- sets of accepted lengths: a row is a length on which code and model disagree -/
 def setFacts : List (String × List Nat × List Nat) := [
@@ -49,6 +61,8 @@ def main : IO Unit := do
   for (n, g, e) in setFacts do
     for k in List.range 301 do
       if g.contains k != e.contains k then IO.println s!"ROW\t{n}\t{k}\tgenerated={g.contains k}\tmodel={e.contains k}"
+  for (n, ok) in coverFacts do
+    if !ok then IO.println s!"ROW\t{n}\t-1\tcandidate list does not cover the required tokens"
   for (n, g) in astFacts do
     if g == 0 then IO.println s!"ROW\t{n}\t-1\tgenerated=0 (determinately violated)"
   for (n, g, e) in natFacts do
